@@ -228,6 +228,18 @@ fn delta_for_tx(
         amount_per_share * shares.into() * fx_rate.exchange_rate.into()
     };
 
+    // The all-affiliate share balance that goes with a new share balance of
+    // this affiliate. Always the expression that
+    // AffiliatePortfolioSecurityStatuses::set_latest_post_status verifies.
+    let all_share_balance_after =
+        |new_share_balance: GreaterEqualZeroDecimal| -> Decimal {
+            AffiliatePortfolioSecurityStatuses::all_affiliates_share_balance_after(
+                pre_tx_status.all_affiliate_share_balance,
+                pre_tx_status.share_balance,
+                new_share_balance,
+            )
+        };
+
     let mut new_share_balance = pre_tx_status.share_balance;
     let mut new_all_affiliates_share_balance =
         pre_tx_status.all_affiliate_share_balance;
@@ -243,8 +255,13 @@ fn delta_for_tx(
         crate::portfolio::TxActionSpecifics::Buy(buy_specs) => {
             new_share_balance =
                 pre_tx_status.share_balance + buy_specs.shares.into();
+            // Not negative: sanity_check_ptfs has verified that the share
+            // balance of the other affiliates is not.
             new_all_affiliates_share_balance =
-                pre_tx_status.all_affiliate_share_balance + buy_specs.shares.into();
+                GreaterEqualZeroDecimal::try_from(all_share_balance_after(
+                    new_share_balance,
+                ))
+                .unwrap();
             if let Some(old_acb) = pre_tx_status.total_acb {
                 let total_price = total_local_share_value(
                     buy_specs.shares,
@@ -268,7 +285,7 @@ fn delta_for_tx(
                     pre_tx_status.share_balance)
                 })?;
             new_all_affiliates_share_balance = GreaterEqualZeroDecimal::try_from(
-                *pre_tx_status.all_affiliate_share_balance - *sell_specs.shares,
+                all_share_balance_after(new_share_balance),
             )
             .map_err(|_| {
                 format!(
@@ -377,11 +394,10 @@ fn delta_for_tx(
                     / *split_specs.ratio.pre_split,
             )
             .unwrap();
-            let share_diff = *new_share_balance - *pre_tx_status.share_balance;
             // This erroring would be strange in practice. Only if the share balance
             // was already broken.
             new_all_affiliates_share_balance = GreaterEqualZeroDecimal::try_from(
-                *new_all_affiliates_share_balance + share_diff,
+                all_share_balance_after(new_share_balance),
             )
             .map_err(|_| {
                 format!(
